@@ -192,7 +192,11 @@ const MONTH_ABBR: [&str; 12] = [
 /// Comment-line material. Real header lines of the IERS/NIST/IETF variants of the file, plus
 /// lines with multi-byte UTF-8 (the Paris Observatory variant carries accented text), so that a
 /// short read can split a character.
-const COMMENTS: [&str; 22] = [
+const COMMENTS: [&str; 25] = [
+    // the special comments are comments: they may stand anywhere a comment may
+    "#h\t2c413af9 124e1031 f165174 ff527c6b 756ae00b",
+    "#$\t 3676924800",
+    "#@\t3896899200",
     "#\tIn the following text, the symbol '#' introduces",
     "#\ta comment, which continues from that symbol until",
     "#\tthe end of the line. A plain comment line has a",
@@ -260,6 +264,9 @@ pub struct Style {
     /// The `#@` expiry stamp predates the newest entries (an unrefreshed header; lenient).
     #[serde(default)]
     pub stale_expiry: bool,
+    /// The `#h` hash line stands in the header, before the table, instead of at the end.
+    #[serde(default)]
+    pub hash_line_first: bool,
 }
 
 fn sep_str(sep: u8, rng: &mut Rng) -> String {
@@ -301,6 +308,10 @@ pub fn render(table: &[Entry], style: &Style, rng: &mut Rng) -> String {
             last + 204_681_600
         };
         lines.push(format!("#@\t{stamp}"));
+        lines.push("#".to_string());
+    }
+    if style.hash_line_first {
+        lines.push("#h\t2c413af9 124e1031 f165174 ff527c6b 756ae00b".to_string());
         lines.push("#".to_string());
     }
     if style.blank_lines {
@@ -442,6 +453,7 @@ pub fn random_style(rng: &mut Rng) -> Style {
         extra_final_newlines: if rng.chance(1, 6) { rng.urange(1, 3) } else { 0 },
         mixed_endings: false,
         stale_expiry: false,
+        hash_line_first: false,
     }
 }
 
@@ -519,6 +531,10 @@ pub fn build_pool(shipped_text: String, shipped_table: Vec<Entry>, n_rendered: u
             let k = 1 + (i / 8) % 20;
             table = real[k..].to_vec();
             tclass = "suffix";
+        }
+        if i % 8 == 2 {
+            style.hash_line_first = true;
+            style.hash_line = (i / 8) % 2 == 1;
         }
         let stale = i % 16 == 6;
         if stale {
